@@ -9,7 +9,7 @@ Precondition enforced by the harness: semantic_analysis() passes on the script a
 Oracle: outcome in {results, VTLEngineException subclass whose code is in the message catalogue}.
 Anything else escaping run() is a violation, bucketed by (exception type, normalised message head).
 """
-import re, warnings
+import os, re, warnings
 from verif import core, eng
 
 LEVEL = "exploration"
@@ -421,7 +421,7 @@ def run(ctx):
     from verif import corpus
     ctx.rule = ("cases: generated scripts over the operator catalogue with hazard data x output format, and corpus cases x 4 output formats; only cases where semantic_analysis and validate_dataset pass are counted; "
                 "non-trivial = the run raises (VTL error or raw); distinct by (script, data, format)")
-    n = 60 if ctx.quick else 3000
+    n = int(os.environ.get("VERIF_C32_N", 0)) or (60 if ctx.quick else 3000)
     jobs = [("work_generated", (ctx.seed * 1009 + k, n)) for k in range(16)]
     ids = [c["id"] for c in corpus.executable_cases(max_s=4.0)]
     ids = corpus.rotate(ids, ctx.seed, 160) if ctx.quick else ids
